@@ -29,12 +29,114 @@ func init() {
 		"bytes.Equal":                           bytesEqual,
 		"errors.New":                            newError,
 		"fmt.Errorf":                            newError,
+		"math/big.NewInt":                       bigNewInt,
+		"(*math/big.Int).Bit":                   bigBit,
+		"(*math/big.Int).SetBit":                bigSetBit,
+		"(*math/big.Int).Int64":                 bigInt64,
+		"(*sync/atomic.Uint32).Add":             atomicAdd,
+		"(*sync/atomic.Uint32).Load":            atomicLoad,
+		"(*sync/atomic.Uint32).Store":           atomicStore,
+		"(*sync/atomic.Int32).Add":              atomicAdd,
+		"(*sync/atomic.Int32).Load":             atomicLoad,
+		"(*sync/atomic.Int64).Add":              atomicAdd,
+		"(*sync/atomic.Int64).Load":             atomicLoad,
+		"(*sync.Mutex).Lock":                    lockModel("1"),
+		"(*sync.Mutex).Unlock":                  lockModel("0"),
+		"(*sync.RWMutex).Lock":                  lockModel("1"),
+		"(*sync.RWMutex).Unlock":                lockModel("0"),
+		"(*sync.RWMutex).RLock":                 lockModel("1"),
+		"(*sync.RWMutex).RUnlock":               lockModel("0"),
 	} {
 		stdModels[k] = v
 	}
 }
 
 func used(name string) { usedModels[name] = true }
+
+// sync/atomic.Uint32 / Int32 / Int64: struct{_ noCopy; v T}; sequentially consistent, modelled
+// as plain loads and stores of the value cell (single-threaded view; interference is RG's business)
+func atomicCell(x *Exec, c *ssa.CallCommon, args []Val) (ref, off string, t types.Type) {
+	o, ft := x.fieldAt(c.Args[0].Type(), "v")
+	return args[0][0].T, add(args[0][1].T, itoa(int64(o))), ft
+}
+
+func atomicAdd(x *Exec, fr *frame, ins ssa.CallInstruction, c *ssa.CallCommon, args []Val, st *State, r string) (Val, string) {
+	used("sync/atomic.(*T).Add/Load/Store: read-modify-write of the value cell (wraps at the width of T)")
+	ref, off, t := atomicCell(x, c, args)
+	r = x.guard(fr, ins, r, not(eq(ref, "0")), "nil-deref")
+	nv := x.vc.S.def("atomic", ic(x.wrap(t, sx("+", x.vc.read(st.Mem, ref, off), args[1][0].T)))).T
+	x.vc.store(st, ref, off, Val{ic(nv)})
+	return Val{ic(nv)}, r
+}
+
+func atomicLoad(x *Exec, fr *frame, ins ssa.CallInstruction, c *ssa.CallCommon, args []Val, st *State, r string) (Val, string) {
+	used("sync/atomic.(*T).Add/Load/Store: read-modify-write of the value cell (wraps at the width of T)")
+	ref, off, t := atomicCell(x, c, args)
+	r = x.guard(fr, ins, r, not(eq(ref, "0")), "nil-deref")
+	v := x.vc.S.defVal("aload", Val{ic(x.vc.read(st.Mem, ref, off))})
+	x.typeFacts(r, t, v, st)
+	return v, r
+}
+
+func atomicStore(x *Exec, fr *frame, ins ssa.CallInstruction, c *ssa.CallCommon, args []Val, st *State, r string) (Val, string) {
+	ref, off, _ := atomicCell(x, c, args)
+	r = x.guard(fr, ins, r, not(eq(ref, "0")), "nil-deref")
+	x.vc.store(st, ref, off, Val{args[1][0]})
+	return Val{}, r
+}
+
+// lockKey identifies a mutex by the address expression it is reached through.
+func lockKey(vc *VC, v Val) string {
+	b, c := vc.splitOffC(v[1].T)
+	return fmt.Sprintf("lock:%s+%s+%d", vc.canon(v[0].T), b, c)
+}
+
+func lockModel(held string) stdModel {
+	return func(x *Exec, fr *frame, ins ssa.CallInstruction, c *ssa.CallCommon, args []Val, st *State, r string) (Val, string) {
+		used("sync.Mutex / RWMutex: Lock..Unlock delimit a critical section (ghost lock set); mutual exclusion itself is the library's guarantee")
+		st.Ghost[lockKey(x.vc, args[0])] = held
+		return Val{}, r
+	}
+}
+
+// math/big for the small non-negative integers the code uses it for (16-bit flag words):
+// NewInt(v) is an object whose cell 0 holds v; Bit / SetBit / Int64 act on that value.
+func bigNewInt(x *Exec, fr *frame, ins ssa.CallInstruction, c *ssa.CallCommon, args []Val, st *State, r string) (Val, string) {
+	used("math/big: NewInt(v).Bit(i) is bit i of v, SetBit(x,i,b) replaces bit i, Int64 returns the value (for 0 <= v < 2^63, 0 <= i < 64)")
+	ref := x.vc.alloc(st, "bigint")
+	x.vc.store(st, ref, "0", Val{args[0][0]})
+	return Val{ic(ref), ic("0")}, r
+}
+
+func bigBit(x *Exec, fr *frame, ins ssa.CallInstruction, c *ssa.CallCommon, args []Val, st *State, r string) (Val, string) {
+	v := x.vc.read(st.Mem, args[0][0].T, args[0][1].T)
+	i := args[1][0].T
+	ok := and(sx("<=", "0", v), sx("<=", "0", i), sx("<", i, "64"))
+	h := x.vc.S.freshConst("bigbit", false)
+	x.vc.S.fact(r, and(sx("<=", "0", h), sx("<=", h, "1")))
+	return Val{ic(ite(ok, sx("bitat", v, i), h))}, r
+}
+
+func bigSetBit(x *Exec, fr *frame, ins ssa.CallInstruction, c *ssa.CallCommon, args []Val, st *State, r string) (Val, string) {
+	// z.SetBit(x, i, b)
+	z, src, i, b := args[0], args[1], args[2][0].T, args[3][0].T
+	v := x.vc.read(st.Mem, src[0].T, src[1].T)
+	ok := and(sx("<=", "0", v), sx("<=", "0", i), sx("<", i, "63"), or(eq(b, "0"), eq(b, "1")))
+	cur := sx("bitat", v, i)
+	nv := ite(eq(b, cur), v, ite(eq(b, "1"), sx("+", v, sx("pow2", i)), sx("-", v, sx("pow2", i))))
+	h := x.vc.S.freshConst("bigset", false)
+	x.vc.store(st, z[0].T, z[1].T, Val{ic(ite(ok, nv, h))})
+	return z, r
+}
+
+func bigInt64(x *Exec, fr *frame, ins ssa.CallInstruction, c *ssa.CallCommon, args []Val, st *State, r string) (Val, string) {
+	v := x.vc.S.defVal("bigv", Val{ic(x.vc.read(st.Mem, args[0][0].T, args[0][1].T))})
+	return v, r
+}
+
+func noopModel(x *Exec, fr *frame, ins ssa.CallInstruction, c *ssa.CallCommon, args []Val, st *State, r string) (Val, string) {
+	return zeroVal(x.vc.ls.of(c.Signature().Results())), r
+}
 
 // Uint16(b): panics unless len(b) >= n
 func beGet(n int) stdModel {
